@@ -82,7 +82,9 @@ class Observer:
     def supplied(self, mid, posobjs, kwobjs):
         """The call record a body received, defaults trimmed by identity."""
         bw = self.bw
-        m = next(mm for mm in bw.world["methods"] if mm["id"] == mid)
+        m = next((mm for mm in bw.world["methods"] if mm["id"] == mid), None)
+        if m is None:  # a method the harness added outside the world (e.g. an offender)
+            return {"pos": [self.arg_record(o) for o in posobjs], "kwn": list(kwobjs), "kwa": [self.arg_record(o) for o in kwobjs.values()]}
         names = m.get("names") or [f"p{i + 1}" for i in range(len(m["pos"]))]
         pos = []
         for nme, o in zip(names, posobjs):
